@@ -207,10 +207,13 @@ int main(int argc, char ** argv)
    if (getenv("SRV_WATCHDOG")) g_watchdogSecs = (unsigned) atoi(getenv("SRV_WATCHDOG"));
    SetStage("starting");
    const std::string mode = (argc > 1) ? argv[1] : "";
-   if (mode == "probe")   return Probe(argc, argv);
-   if (mode == "iso")     return IsoReplay(argc, argv);
-   if (mode == "isorand") return IsoRandom(argc, argv);
-   if (mode == "oq")      return OqReplay(argc, argv);
-   if (mode == "hostile") return HostileRun(argc, argv);
+   int rc = -1;
+   if (mode == "probe")   rc = Probe(argc, argv);
+   if (mode == "iso")     rc = IsoReplay(argc, argv);
+   if (mode == "isorand") rc = IsoRandom(argc, argv);
+   if (mode == "ctrleak")     rc = CtrLeakDirected(argc, argv);
+   if (mode == "oq")      rc = OqReplay(argc, argv);
+   if (mode == "hostile") rc = HostileRun(argc, argv);
+   if (rc >= 0) {fflush(NULL); _exit(rc);}   // no static destructors: the harness deliberately keeps references to pooled nodes (see srv_iso.h)
    fprintf(stderr, "usage: srv iso|isorand|oq|hostile|probe ...\n"); return 2;
 }
